@@ -2344,9 +2344,9 @@ where
         let before = inp.save().clone();
         match self.parser_a.go::<M>(inp) {
             Ok(out) => {
-                // A succeeded -- go back to the beginning and try B
+                // A succeeded -- go back to the beginning and try B (keeping the errors A emitted)
                 let after = inp.save();
-                inp.rewind(before);
+                inp.rewind_input(before);
 
                 match self.parser_b.go::<Check>(inp) {
                     Ok(()) => {
@@ -2663,7 +2663,8 @@ where
         let before = inp.save();
         match self.parser.go::<M>(inp) {
             Ok(out) => {
-                inp.rewind(before);
+                // Go back to the beginning, keeping the errors emitted along with the output
+                inp.rewind_input(before);
                 Ok(out)
             }
             Err(()) => Err(()),
